@@ -1,6 +1,6 @@
 From Coq Require Import List NArith ZArith Bool.
 Import ListNotations.
-Require Import MV.C17.Model MV.C17.Spec MV.C17.Exec MV.C17.ProofsMap MV.C17.Proofs MV.C17.ProofsThread MV.C17.ProofsTop MV.C17.ExecProofs.
+Require Import MV.C17.Model MV.C17.Spec MV.C17.Exec MV.C17.ProofsMap MV.C17.Proofs MV.C17.ProofsThread MV.C17.ProofsTop MV.C17.ProofsFrame MV.C17.ExecProofs.
 Open Scope N_scope.
 Require Import MV.C17.Properties.
 
@@ -65,6 +65,12 @@ Check (C17_thread_local_result : forall (admitf : str -> label -> bool) (h1 h2 :
   /\ forall n, mget n (snd (enhance_key admitf mname own (cur_map (m_state [] h1) cur1)))
              = mget n (snd (enhance_key admitf mname own (cur_map (m_state [] h2) cur2)))).
 Print Assumptions C17_thread_local_result.
+Check (C17_control_events_keep_maps : forall r st e,
+  is_control e = true -> fst (m_step st (snd (reg_step r e))) = st).
+Print Assumptions C17_control_events_keep_maps.
+Check (C17_other_thread_step_keeps_stack : forall r t e,
+  own_or_neutral t e = false -> stack_of t (fst (reg_step r e)) = stack_of t r).
+Print Assumptions C17_other_thread_step_keeps_stack.
 Check (C17_spec_ok_on_model : forall c, spec_ok c (run_case c) = true).
 Print Assumptions C17_spec_ok_on_model.
 Check (C17_spec_ok_sound : forall c o,
